@@ -872,6 +872,11 @@ func startKeepalive(session keepaliveSession, interval time.Duration, failureThr
 					// Peer doesn't support ping, stop the keepalive process.
 					return
 				}
+				if ctx.Err() != nil {
+					// The session is being closed (a tick and Close fell together):
+					// a ping refused by the closing connection is not a miss.
+					return
+				}
 				consecutiveFailures++
 				if consecutiveFailures < failureThreshold {
 					// Tolerate transient failures below the threshold; log so
